@@ -9,6 +9,7 @@ CONSTANTS
   BinOps = {}
   BinMods = {}
   Offsets = {}
+  BadOffsets = {}
   AtMods = {}
   Exts = {}
   Ranges = {300000}
